@@ -262,3 +262,25 @@ Ltac bridge :=
   repeat match goal with |- context [Z.of_nat ?n] => let k := eval compute in (Z.of_nat n) in change (Z.of_nat n) with k end;
   unfold byte_ok in *;
   land_to_mod; shifts_to_arith; drop_wraps; lors_to_adds; divmod_lia.
+
+(* ---------- the eight single-bit masks of a flag byte ---------- *)
+
+Lemma flag128 b : byte_ok b -> (Z.land b 128 >? 0) = bitb [b] 0.
+Proof. revert b. apply byte_sweep_bool. vm_compute. reflexivity. Qed.
+Lemma flag64 b : byte_ok b -> (Z.land b 64 >? 0) = bitb [b] 1.
+Proof. revert b. apply byte_sweep_bool. vm_compute. reflexivity. Qed.
+Lemma flag32 b : byte_ok b -> (Z.land b 32 >? 0) = bitb [b] 2.
+Proof. revert b. apply byte_sweep_bool. vm_compute. reflexivity. Qed.
+Lemma flag16 b : byte_ok b -> (Z.land b 16 >? 0) = bitb [b] 3.
+Proof. revert b. apply byte_sweep_bool. vm_compute. reflexivity. Qed.
+Lemma flag8 b : byte_ok b -> (Z.land b 8 >? 0) = bitb [b] 4.
+Proof. revert b. apply byte_sweep_bool. vm_compute. reflexivity. Qed.
+Lemma flag4 b : byte_ok b -> (Z.land b 4 >? 0) = bitb [b] 5.
+Proof. revert b. apply byte_sweep_bool. vm_compute. reflexivity. Qed.
+Lemma flag2 b : byte_ok b -> (Z.land b 2 >? 0) = bitb [b] 6.
+Proof. revert b. apply byte_sweep_bool. vm_compute. reflexivity. Qed.
+Lemma flag1 b : byte_ok b -> (Z.land b 1 >? 0) = bitb [b] 7.
+Proof. revert b. apply byte_sweep_bool. vm_compute. reflexivity. Qed.
+
+Ltac flags b H := rewrite ?(flag128 b H), ?(flag64 b H), ?(flag32 b H), ?(flag16 b H), ?(flag8 b H), ?(flag4 b H), ?(flag2 b H), ?(flag1 b H).
+
